@@ -4,6 +4,10 @@ import json, os
 ROOT = os.path.dirname(os.path.dirname(os.path.abspath(__file__)))
 
 CHECKS = {
+ 'C18': dict(level='exploration', design='DESIGN.md §5 C18',
+   technique='CrossHair symbolic execution of generator-enumerated jump-level models with symbolic condition outcomes: a run raises Unknown jump label only for labels lint warned about; concrete sweeps for purity, static exactness of label/redefinition warnings and edit-justification',
+   text='For batches of jump-level models (user labels, duplicate labels, dangling jumps, one and two functions) CrossHair explores every outcome sequence of the conditional jumps and checks that a run can raise "Unknown jump label x" only if lint_script issued an unknown-label warning for x. The remaining clauses have no input to range over and are evaluated concretely on every enumerated model (stated as such): lint never raises, leaves the model unchanged and is deterministic (also on parsed structured programs and every shipped .bare file); label/redefinition warnings equal an independent static computation; each unused-variable/argument/label and pointless-statement warning is justified by applying the suggested edit and comparing runs.',
+   note='Trusted: CrossHair/z3 and the interpreter (C08). Most of C18 is static; only the unknown-label soundness clause is a solver verdict.'),
  'C17': dict(level='exploration', design='DESIGN.md §5 C17',
    technique='CrossHair symbolic execution of the real include machinery over virtual file systems, differential against the reference machine with an independently written resolver; symbolic base kind, system prefix and per-file state; url_file_relative on symbolic strings',
    text='Per include-tree program (chain with sub-directory, ../ and return inside an include; adjacent includes merged into one statement across directories; include inside a function; system, absolute-URL and absolute-path includes) the real interpreter is run with fetchFn/urlFn/systemPrefix set up as the CLI does and compared with the reference machine: sequence of fetched URLs, effect trace, final globals, exception type and message, for every base kind and every choice of a missing / throwing / syntactically broken file. url_file_relative itself is compared with the resolver specification on symbolic path fragments for URL bases.',
